@@ -2,6 +2,9 @@ package vharness
 
 import (
 	"fmt"
+	"time"
+
+	varmq "github.com/goptics/varmq"
 	"sort"
 	"strings"
 
@@ -345,6 +348,36 @@ func init() {
 			},
 		})
 	}
+
+	// ---- reaper-reuse: the pool has grown to two idle workers and they have expired; a tick and a burst of three gated
+	// jobs (concurrency 3) arrive together, so that the dispatcher pops idle workers while the reaper walks its
+	// snapshot and then needs one more from the node cache. Everything runs once, and Stop leaves nothing behind (C18, C01)
+	Register(&Scenario{
+		Name:  "reaper-reuse",
+		Props: []string{"C18", "C01", "C03", "C02"},
+		Mode:  "NB", Quick: 2, Thorough: 3, Shards: 16,
+		Body: func(h *H) {
+			h.Shape = Gated
+			h.CrashProp = "C18"
+			w := h.NewWorker(Plain, 3, varmq.WithIdleWorkerExpiryDuration(time.Second))
+			w.Expiry = true
+			q := w.Bind(Fifo, nil)
+			h.OpenAll(0, 1)
+			q.Add(0, AddOpt{})
+			q.Add(1, AddOpt{})
+			h.Quiesce(true)
+			vrt.Arm(1)
+			go func() { q.Add(2, AddOpt{}); q.Add(3, AddOpt{}); q.Add(4, AddOpt{}) }()
+			h.Quiesce(false)
+			h.OpenAll(2, 3, 4)
+			h.Quiesce(true)
+			go func() { w.Stop() }()
+			h.Quiesce(true)
+			h.checkStoppedLeak(w)
+			w.Restart()
+			h.End()
+		},
+	})
 
 	// ---- errs-paused: a job that fails or panics after a lifecycle call switched the status is still offered on Errs()
 	// (C07: "a panic ... is offered on the error channel"); the buffer is free and nothing else fails
